@@ -246,6 +246,31 @@ class _Expr(ast.NodeTransformer):
                 return ast.copy_location(e, n)
         return n
 
+    def visit_BinOp(self, n: ast.BinOp):
+        self.generic_visit(n)
+        # "0x" + f"{a:X}"  ->  f"0x{a:X}"      (string pieces written next to each other are one formatted string)
+        if isinstance(n.op, ast.Add):
+            def parts(x):
+                if isinstance(x, ast.Constant) and isinstance(x.value, str):
+                    return [x]
+                if isinstance(x, ast.JoinedStr):
+                    return list(x.values)
+                return None
+            a, b = parts(n.left), parts(n.right)
+            if a is not None and b is not None and (isinstance(n.left, ast.JoinedStr) or isinstance(n.right, ast.JoinedStr)):
+                vals: list = []
+                for v in a + b:
+                    if isinstance(v, ast.Constant) and vals and isinstance(vals[-1], ast.Constant):
+                        vals[-1] = ast.Constant(value=vals[-1].value + v.value)
+                    else:
+                        vals.append(v)
+                self.changed = True
+                return ast.copy_location(ast.JoinedStr(values=vals), n)
+            if a is not None and b is not None:
+                self.changed = True
+                return ast.copy_location(ast.Constant(value=n.left.value + n.right.value), n)
+        return n
+
     def visit_ListComp(self, n: ast.ListComp):
         self.generic_visit(n)
         # [E(x) for x in (a, b, c)]  ->  [E(a), E(b), E(c)]
